@@ -987,6 +987,12 @@ func extra7C12(c *Ctx) {
 				if len(core.CallsTo(info, nd, false, "os.Remove", "os.RemoveAll")) > 0 {
 					removes = true
 				}
+				// or through a local closure that does the removing
+				for _, lc := range core.Calls(nd, false) {
+					if lit, isLit := resolveLocal(info, f.Body, lc.Fun).(*ast.FuncLit); isLit && len(core.CallsTo(info, lit.Body, true, "os.Remove", "os.RemoveAll")) > 0 {
+						removes = true
+					}
+				}
 				return false
 			}) {
 				if ex.Return == nil || len(ex.Return.Results) == 0 {
